@@ -584,6 +584,7 @@ type vfC40Gen struct {
 	pending []*vfC40Op
 	markers int
 	sview   string // a session view defined by this program ("" = none yet)
+	droppedB bool  // column b of the program's table has been dropped (alter drop)
 }
 
 // finish returns the ops that end transaction t: for an update transaction that may write, a
@@ -1003,6 +1004,12 @@ func (g *vfC40Gen) next(step, steps int) *vfC40Op {
 				// a session view: known to this session only, used by later queries and one-shot gets
 				g.sview = fmt.Sprintf("sv%d", g.id)
 				return &vfC40Op{kind: "admin", s: fmt.Sprintf("sview %s = %s where a >= %d", g.sview, T, r.IntN(3))}
+			}
+			if !g.droppedB && r.IntN(6) == 0 {
+				// a dropped column stays in the stored rows as a placeholder; every field after it must keep its
+				// place on both paths (rows of several records - extend, join - are re-packed for the client)
+				g.droppedB = true
+				return &vfC40Op{kind: "admin", s: "alter " + T + " drop (b)"}
 			}
 			switch r.IntN(5) {
 			case 0:
